@@ -572,6 +572,173 @@ pub fn batch_scheme<S: RefOps>(rec: &mut Rec, max_size: usize) {
     });
 }
 
+
+/// Combination openings: the library's `check_combinations` against the reference relation applied to the
+/// homomorphically combined commitments (naive linear combination of the commitments, claimed value minus the
+/// constant term, point groups in point-label order, combinations in label order, one sponge threaded through):
+/// honest, every claimed value replaced, every verifier-side coefficient and constant changed, every proof
+/// component replaced.  Combinations with a constant term, with a repeated label, of one bounded polynomial; one
+/// combination under two labels of one point and at a second point.
+pub fn comb_scheme<S: RefOps + crate::checks::c08::LinMap>(rec: &mut Rec) {
+    use ark_poly::Polynomial;
+    use ark_poly_commit::{BatchLCProof, LCTerm, LabeledCommitment, LinearCombination};
+    use ark_std::rand::RngCore;
+    use std::collections::{BTreeMap, BTreeSet};
+    let cfg = crate::scope::slice_b::<S>();
+    let id0 = format!("{}/LC/{}", S::NAME, cfg.id());
+    if !rec.take(&id0) {
+        return;
+    }
+    rec.dim("scheme", S::NAME);
+    let keys = match build_keys::<S>(&cfg, rec.seed) {
+        Ok(k) => k,
+        Err(_) => return,
+    };
+    let c = match commit_set::<S>(&keys, crate::checks::c01::slice_b_polys::<S>(&cfg, rec.seed), rec.seed, 0) {
+        Ok(c) => c,
+        Err(_) => return,
+    };
+    let labels = crate::checks::c01::slice_b_labels::<S>(&cfg, rec.seed);
+    let (two, three, r2) = (S::F::from(2u64), S::F::from(3u64), rho::<S::F>(rec.seed, 2));
+    // (label, terms (coefficient, Some(poly index) | None = constant))
+    let specs: Vec<(&str, Vec<(S::F, Option<usize>)>)> = vec![
+        ("L0", vec![(two, Some(0)), (three, None)]),
+        ("L1", vec![(S::F::one(), Some(1))]),
+        ("L2", vec![(r2, Some(0)), (-S::F::one(), Some(0)), (S::F::one(), None)]),
+    ];
+    let build = |specs: &Vec<(&str, Vec<(S::F, Option<usize>)>)>| -> Vec<LinearCombination<S::F>> {
+        specs
+            .iter()
+            .map(|(l, ts)| {
+                let mut lc = LinearCombination::<S::F>::empty(*l);
+                for (cf, t) in ts {
+                    match t {
+                        Some(j) => lc.push((*cf, LCTerm::PolyLabel(format!("p{}", j)))),
+                        None => lc.push((*cf, LCTerm::One)),
+                    };
+                }
+                lc
+            })
+            .collect()
+    };
+    let mut qs = QuerySet::<S::Pt>::new();
+    for (l, pl) in [("L0", 0usize), ("L0", 1), ("L0", 2), ("L1", 2), ("L2", 0)] {
+        qs.insert((l.to_string(), (labels[pl].0.clone(), labels[pl].1.clone())));
+    }
+    let value_of = |ts: &Vec<(S::F, Option<usize>)>, z: &S::Pt| -> S::F {
+        let mut v = S::F::zero();
+        for (cf, t) in ts {
+            v += match t {
+                Some(j) => *cf * c.polys[*j].polynomial().evaluate(z),
+                None => *cf,
+            };
+        }
+        v
+    };
+    let mut evals = Evaluations::<S::Pt, S::F>::new();
+    for (l, (_, z)) in qs.iter() {
+        let ts = &specs.iter().find(|(n, _)| n == l).unwrap().1;
+        evals.insert((l.clone(), z.clone()), value_of(ts, z));
+    }
+    let lcs = build(&specs);
+    let (polys, comms, states) = c.refs();
+    let mut sponge = sponge_pre::<S::F>(0);
+    let mut rng = seed_rng(rec.seed, 20);
+    let lcp = match do_open_comb::<S>(&keys.ck, &lcs, &polys, &comms, &qs, &mut sponge, &states, Some(&mut rng as &mut dyn RngCore)) {
+        Ok(p) => p,
+        Err(o) => {
+            rec.violation(&format!("C10/{}/open_combinations/in-domain", S::NAME), &id0, format!("open_combinations failed: {}", o.short()));
+            return;
+        }
+    };
+    let list: Vec<Pf<S>> = lcp.proof.clone().into();
+    let mut groups: BTreeMap<String, (S::Pt, BTreeSet<String>)> = BTreeMap::new();
+    for (l, (pl, z)) in qs.iter() {
+        groups.entry(pl.clone()).or_insert_with(|| (z.clone(), BTreeSet::new())).1.insert(l.clone());
+    }
+    // the reference: combined commitments by naive arithmetic, then the single-point relation per group
+    let reference = |specs: &Vec<(&str, Vec<(S::F, Option<usize>)>)>, ev: &Evaluations<S::Pt, S::F>, proofs: &[Pf<S>]| -> bool {
+        if proofs.len() != groups.len() {
+            return false;
+        }
+        let mut combined: BTreeMap<String, (LCm<S>, S::F)> = BTreeMap::new();
+        for (l, ts) in specs.iter() {
+            let poly_terms: Vec<(S::F, usize)> = ts.iter().filter_map(|(cf, t)| t.map(|j| (*cf, j))).collect();
+            let konst: S::F = ts.iter().filter(|(_, t)| t.is_none()).map(|(cf, _)| *cf).sum();
+            let first = c.comms[poly_terms[0].1].commitment();
+            let single_bounded = poly_terms.len() == 1 && poly_terms[0].0.is_one() && c.comms[poly_terms[0].1].degree_bound().is_some();
+            let (cm, bound) = if single_bounded {
+                (first.clone(), c.comms[poly_terms[0].1].degree_bound())
+            } else {
+                let mut acc = S::comb(S::F::zero(), first, S::F::zero(), first);
+                for (cf, j) in poly_terms.iter() {
+                    acc = S::comb(S::F::one(), &acc, *cf, c.comms[*j].commitment());
+                }
+                (acc, None)
+            };
+            combined.insert(l.to_string(), (LabeledCommitment::new(l.to_string(), cm, bound), konst));
+        }
+        let mut sp = sponge_pre::<S::F>(0);
+        let mut all = true;
+        for ((_, (z, ls)), pf) in groups.iter().zip(proofs.iter()) {
+            let cs: Vec<&LCm<S>> = ls.iter().map(|l| &combined[l].0).collect();
+            let vs: Vec<S::F> = ls.iter().map(|l| ev[&(l.clone(), z.clone())] - combined[l].1).collect();
+            all &= catch(|| S::ref_check(&keys.vk, &cs, z, &vs, pf, &mut sp)).unwrap_or(false);
+        }
+        all
+    };
+    let mut go = |rec: &mut Rec, op: &str, specs: &Vec<(&str, Vec<(S::F, Option<usize>)>)>, ev: &Evaluations<S::Pt, S::F>, proofs: &[Pf<S>]| {
+        let want = reference(specs, ev, proofs);
+        let bp: BPf<S> = proofs.to_vec().into();
+        let pf = BatchLCProof::<S::F, BPf<S>> { proof: bp, evals: lcp.evals.clone() };
+        let mut sponge = sponge_pre::<S::F>(0);
+        let mut rng = seed_rng(rec.seed, 40);
+        let got = do_check_comb::<S>(&keys.vk, &build(specs), &comms, &qs, ev, &pf, &mut sponge, &mut rng);
+        rec.count_points(1);
+        rec.op(2);
+        let opc: String = op.chars().filter(|c| !c.is_ascii_digit()).collect();
+        rec.class(if want { "relation-holds" } else { "relation-fails" });
+        rec.class(&format!("lib-comb-{}", got.class()));
+        rec.obs(&format!("{}|comb|{}|{}|{}", S::NAME, opc, want, got.class()));
+        if got.accepted() != want {
+            let dir = if got.accepted() { "lib-accepts" } else { "lib-rejects" };
+            rec.violation(&format!("C10/{}/check_combinations/{}/{}", S::NAME, opc, dir), &id0, format!("{}: library -> {}, reference relation on the combined commitments -> {}", op, got.short(), want));
+        }
+    };
+    go(rec, "honest", &specs, &evals, &list);
+    let keys_e: Vec<_> = evals.keys().cloned().collect();
+    for (i, k) in keys_e.iter().enumerate() {
+        for (n, f) in f_alpha(&evals[k], None, rec.seed) {
+            let mut ev = evals.clone();
+            ev.insert(k.clone(), f);
+            go(rec, &format!("value[{}:{}]:={}", i, k.0, n), &specs, &ev, &list);
+        }
+    }
+    for li in 0..specs.len() {
+        for ti in 0..specs[li].1.len() {
+            for (n, f) in f_alpha(&specs[li].1[ti].0, None, rec.seed) {
+                let mut sp2 = specs.clone();
+                sp2[li].1[ti].0 = f;
+                // a changed coefficient 1 on a lone bounded polynomial turns it into a scaled bounded term, which the
+                // schemes refuse; the reference mirrors that by dropping the bound (the relation then fails)
+                go(rec, &format!("{}.term[{}]:={}", specs[li].0, ti, n), &sp2, &evals, &list);
+            }
+        }
+    }
+    for i in 0..list.len() {
+        let other = &list[(i + 1) % list.len()];
+        for (n, m) in S::proof_mutations(&list[i], other, rec.seed) {
+            if n.starts_with("shape:") {
+                continue;
+            }
+            let mut l2 = list.clone();
+            l2[i] = m;
+            go(rec, &format!("proof[{}].{}", i, n), &specs, &evals, &l2);
+        }
+    }
+    rec.sample(&format!("{}-c10-comb", S::NAME), format!("{}: 3 combinations, 5 queries over 3 point labels", id0));
+}
+
 pub fn run(rec: &mut Rec) {
     let w = if rec.thorough() { Width::Medium } else { Width::Narrow };
     scheme::<SMar>(rec, w);
@@ -587,5 +754,9 @@ pub fn run(rec: &mut Rec) {
     batch_scheme::<SSon>(rec, bs);
     batch_scheme::<SIpa>(rec, bs);
     batch_scheme::<SPst>(rec, bs);
+    comb_scheme::<SMar>(rec);
+    comb_scheme::<SSon>(rec);
+    comb_scheme::<SIpa>(rec);
+    comb_scheme::<SPst>(rec);
     crate::special::c10_special(rec);
 }
